@@ -201,20 +201,13 @@ func trimStack(st []byte) string {
 func RunProp[C any](t *testing.T, prop string, u Unit[C]) {
 	r := newRec(prop, u.Name, u.Rule)
 	defer r.flush()
-	var g *guard
-	if u.Guard {
-		g = newGuard(prop, u.Name)
-		defer g.stop()
-	}
+	g := newGuard(prop, u.Name, u.Guard)
+	defer g.stop()
 	rapid.Check(t, func(rt *rapid.T) {
 		c := u.Draw(rt)
-		if g != nil {
-			g.begin(c)
-		}
+		g.begin(c)
 		v := u.Check(c)
-		if g != nil {
-			g.end()
-		}
+		g.end()
 		r.record(c, v)
 		if v.Err != nil && v.Excluded == "" {
 			writeFail(prop, u.Name, c, v.Err.Error())
@@ -237,19 +230,12 @@ func Shard() (int, int) {
 func RunCases[C any](t *testing.T, prop string, u Unit[C], cases []C) {
 	r := newRec(prop, u.Name, u.Rule)
 	defer r.flush()
-	var g *guard
-	if u.Guard {
-		g = newGuard(prop, u.Name)
-		defer g.stop()
-	}
+	g := newGuard(prop, u.Name, u.Guard)
+	defer g.stop()
 	for _, c := range cases {
-		if g != nil {
-			g.begin(c)
-		}
+		g.begin(c)
 		v := u.Check(c)
-		if g != nil {
-			g.end()
-		}
+		g.end()
 		r.record(c, v)
 		if v.Err != nil && v.Excluded == "" {
 			writeFail(prop, u.Name, c, v.Err.Error())
@@ -265,16 +251,21 @@ func RunCases[C any](t *testing.T, prop string, u Unit[C], cases []C) {
 // as a hang (the driver then confirms it under a CPU-time limit).
 var HangSeconds int64 = 30
 
+// Every unit runs under the hang watchdog, which keeps the running case in
+// memory and writes it out when it nominates a hang. Units with Guard set
+// additionally write every case to VERIF_FAIL.pending before running it, so
+// that a dying process (fatal error, race-detector abort) leaves it behind.
 type guard struct {
 	prop, unit string
-	path       string
+	path       string // pending file ("" = light guard)
+	cur        atomic.Pointer[any]
 	start      atomic.Int64 // unix nanos of the running case, 0 when idle
 	done       chan struct{}
 }
 
-func newGuard(prop, unit string) *guard {
+func newGuard(prop, unit string, pending bool) *guard {
 	g := &guard{prop: prop, unit: unit, done: make(chan struct{})}
-	if p := os.Getenv("VERIF_FAIL"); p != "" {
+	if p := os.Getenv("VERIF_FAIL"); p != "" && pending {
 		g.path = p + ".pending"
 	}
 	go func() {
@@ -287,9 +278,12 @@ func newGuard(prop, unit string) *guard {
 			case <-tk.C:
 				st := g.start.Load()
 				if st != 0 && time.Now().UnixNano()-st > HangSeconds*int64(time.Second) {
-					if g.path != "" {
-						if b, err := os.ReadFile(g.path); err == nil {
-							_ = os.WriteFile(os.Getenv("VERIF_FAIL")+".hang", b, 0o644)
+					if fp := os.Getenv("VERIF_FAIL"); fp != "" {
+						if cp := g.cur.Load(); cp != nil {
+							if cb, err := json.Marshal(*cp); err == nil {
+								b, _ := json.Marshal(failFile{prop, unit, "hang nominated", cb, RaceEnabled})
+								_ = os.WriteFile(fp+".hang", b, 0o644)
+							}
 						}
 					}
 					fmt.Printf("HANG-NOMINATED %s/%s: a case ran longer than %ds\n", prop, unit, HangSeconds)
@@ -302,6 +296,7 @@ func newGuard(prop, unit string) *guard {
 }
 
 func (g *guard) begin(c any) {
+	g.cur.Store(&c)
 	if g.path != "" {
 		cb, err := json.Marshal(c)
 		if err == nil {
